@@ -133,6 +133,8 @@ def patched_tree(patch, meta, tmp, pre_patches=()):
     old = (meta.get('verified_by_me') or {}).get('base_commit')
     if old:
         bases.append((old[:7], old))
+    if old and meta.get('needs_base'):
+        bases = bases[1:]      # breaking only on the code it was written against (see meta)
     msg = ''
     for label, commit in bases:
         repo = os.path.join(tmp, 'repo_' + label)
